@@ -397,6 +397,22 @@ fn c03(quick: bool) -> Vec<Harness> {
             v.push(ops_harness(&format!("sq{sq}-poll-without-timeout"), "C03", cfg, bounds(d(8, 10), d(2, 3), 4)));
         }
     }
+    {
+        // Kernel-thread ring, the thread may sleep: completions and freed queue space still wake.
+        let mut cfg = Cfg::base("C03");
+        cfg.sq = 1;
+        cfg.sqpoll = true;
+        cfg.kinds = vec![Kind::ReadVec];
+        cfg.max_ops = 3;
+        cfg.allow_drop = false;
+        cfg.allow_fresh = false;
+        cfg.errors = false;
+        cfg.shorts = false;
+        cfg.faults = false;
+        cfg.costs.spurious_poll = 1;
+        cfg.report = vec!["C03"];
+        v.push(ops_harness("sq1-kernel-thread", "C03", cfg, bounds(d(9, 11), d(2, 3), 4)));
+    }
     // Operations that become ready with their *second* completion (zero-copy sends), and streams of
     // descriptors / readiness events, next to a plain operation.
     for (name, kinds, zc_notif) in [("two-step", vec![Kind::SendZc, Kind::ReadVec], true), ("two-step-error-without-notif", vec![Kind::SendVectoredZc], false), ("streams", vec![Kind::MultishotAccept, Kind::Pollable], true)] {
@@ -455,6 +471,21 @@ fn c04(quick: bool) -> Vec<Harness> {
             cfg.report = vec!["C04"];
             v.push(ops_harness(&format!("sq{sq}-c0={c0:#x}"), "C04", cfg, bounds(d(9, 12), d(2, 3), 3)));
         }
+    }
+    for (sq, c0) in [(1u32, 0u32), (2, 0xffff_ffff)] {
+        // A kernel-thread ring whose thread may go to sleep: what is accepted must still reach the kernel
+        // (a10 has to wake the thread when it next enters).
+        let mut cfg = Cfg::base("C04");
+        cfg.sq = sq;
+        cfg.c0_sq = c0;
+        cfg.sqpoll = true;
+        cfg.kinds = vec![Kind::WriteVec];
+        cfg.max_ops = 3;
+        cfg.errors = false;
+        cfg.shorts = false;
+        cfg.allow_fresh = false;
+        cfg.report = vec!["C04"];
+        v.push(ops_harness(&format!("sq{sq}-kernel-thread-c0={c0:#x}"), "C04", cfg, bounds(d(9, 11), d(2, 3), 3)));
     }
     for c0 in [0u32, 0xffff_fffe] {
         // "Every ring size": the largest one the kernel grants (IORING_SETUP_CLAMP).
@@ -730,10 +761,10 @@ fn c12(quick: bool) -> Vec<Harness> {
             let mut h = c12_threads(C12ThCfg { acts: acts.clone(), ring_polls, sq, sqpoll, prop: "C12", idle_at_start: false }, pb);
             if sqpoll && acts.len() == 1 {
                 let mut h2 = c12_threads(C12ThCfg { acts, ring_polls, sq, sqpoll, prop: "C12", idle_at_start: true }, pb);
-                h2.cap_s = if quick { 0 } else { 600 };
+                h2.cap_s = if quick { 0 } else { 150 };
                 th.push(th_harness("C12", h2));
             }
-            h.cap_s = if quick { 0 } else { 600 };
+            h.cap_s = if quick { 0 } else { 150 };
             th.push(th_harness("C12", h));
         }
     }
